@@ -78,6 +78,7 @@ type scenarioDef struct {
 	}
 }
 
+//go:norace
 func body(def scenarioDef) func() interface{} {
 	return func() interface{} {
 		var obs observation
@@ -171,6 +172,7 @@ func firstLine(s string) string {
 	return s
 }
 
+//go:norace
 func drain(e *vnet.End) string {
 	var sb strings.Builder
 	buf := make([]byte, 65536)
@@ -360,6 +362,52 @@ func main() {
 		if i%401 == 0 {
 			run.Sample("scenario", map[string]interface{}{"name": r.Name, "executions": r.Executions, "bound_completed": r.BoundDone, "distinct_outcomes": len(r.Outcomes)})
 		}
+	}
+	// ---- data-race pass (plan A, DESIGN §0.2): the same scenarios in a -race build under the
+	// controlled scheduler whose hand-offs are invisible to the race detector ----
+	if bin := os.Getenv("VERIF_RACE_BIN"); bin != "" {
+		rbound, rmax := 1, int64(400)
+		if run.Thorough() {
+			rbound, rmax = 2, 20000
+		}
+		rres, stderr := vx.ShardedBin(bin, "race", len(defs), func(i int) vx.ItemResult {
+			r := vx.ExploreItem(build(defs[i]), rbound, vx.Config{MaxExec: rmax, Delay: true, Horizon: 50000})
+			r.Name = "race:" + r.Name
+			return r
+		})
+		var rexec int64
+		for _, r := range rres {
+			if r.EngineErr != "" {
+				run.EngineError("race pass: %s", r.EngineErr)
+			}
+			rexec += r.Executions
+			run.Trans += r.Points
+			run.Traces += r.Executions
+			if !r.Exhaustive {
+				exhaustive = false
+			}
+		}
+		run.AddEvals(rexec)
+		reports := vx.ParseRaceReports(stderr, []string{"go-imap/v2/imapserver", "go-imap/v2/internal/imapwire", "go-imap/v2.", "go-imap/v2/internal."})
+		var harnessReports int64
+		for _, rep := range reports {
+			if !rep.Inner {
+				harnessReports++
+				run.Set("last_harness_side_race_report", rep.Key+"\n"+rep.Text)
+				continue
+			}
+			name := "?"
+			if rep.Item >= 0 && rep.Item < len(defs) {
+				name = defs[rep.Item].Name
+			}
+			run.Violation("data-race:"+rep.Key, map[string]interface{}{"scenario": name, "report": rep.Text})
+		}
+		run.Set("race_pass_executions", rexec)
+		run.Set("race_pass_delay_bound", int64(rbound))
+		run.Set("race_pass_reports_total", int64(len(reports)))
+		run.Set("race_pass_reports_with_a_harness_side_ignored", harnessReports)
+	} else {
+		run.Set("race_pass", "skipped: no -race build available")
 	}
 	for k, v := range boundHist {
 		run.Set("scenarios_with_"+k, v)
